@@ -17,6 +17,15 @@ def build():
         shutil.copy(os.path.join(REPO, 'Cargo.lock'), os.path.join(CRATE, 'Cargo.lock'))
     except OSError:
         pass
+    with open(os.path.join(CRATE, 'Cargo.toml.in')) as f:
+        toml = f.read().replace('@REPO@', REPO)
+    try:
+        old = open(os.path.join(CRATE, 'Cargo.toml')).read()
+    except OSError:
+        old = None
+    if old != toml:
+        with open(os.path.join(CRATE, 'Cargo.toml'), 'w') as f:
+            f.write(toml)
     env = dict(os.environ, CARGO_NET_OFFLINE='true', PURL_REPO=REPO)
     p = subprocess.run(['cargo', 'build', '--release', '--offline', '--target-dir', TARGET], cwd=CRATE,
                        capture_output=True, text=True, env=env, timeout=1800)
